@@ -417,8 +417,11 @@ def check_property(pid, tier='quick', seed=0):
     for r in runs:
         for im in getattr(r, 'imports', []):
             need.add((im['from_unit'], im['key'], r.name))
-    extra_units = sorted(set(n for n, k, w in need) - set(names))
-    if extra_units:
+    # transitive closure: an exporting unit may itself import from further units
+    while True:
+        extra_units = sorted(set(n for n, k, w in need) - set(names))
+        if not extra_units:
+            break
         names = names + extra_units
         runs = run_units(names, tier)
         for r in runs:
